@@ -1073,9 +1073,11 @@ class H2Connection:
             stream. Defaults to :data:`ErrorCodes.NO_ERROR
             <h2.errors.ErrorCodes.NO_ERROR>`.
         :type error_code: ``int``
+        :raises ValueError: if the error code does not fit in 32 bits.
         :returns: Nothing
         """
         self.config.logger.debug("Reset stream ID %d", stream_id)
+        _validate_error_code(error_code)
         self._process_local_input(ConnectionInputs.SEND_RST_STREAM)
         stream = self._get_stream_by_id(stream_id)
         frames = stream.reset_stream(error_code)
@@ -1096,9 +1098,18 @@ class H2Connection:
             a reason for closing the connection. Must be a bytestring.
         :param last_stream_id: (optional) The last stream which was processed
             by the sender. Defaults to ``highest_inbound_stream_id``.
+        :raises ValueError: if the error code does not fit in 32 bits or the
+            last stream ID does not fit in 31 bits.
         :returns: Nothing
         """
         self.config.logger.debug("Close connection")
+        _validate_error_code(error_code)
+        if last_stream_id is not None and not (
+                0 <= last_stream_id <= self.HIGHEST_ALLOWED_STREAM_ID):
+            raise ValueError(
+                "last_stream_id must be between 0 and 2**31-1, not %d" %
+                last_stream_id
+            )
         self._process_local_input(ConnectionInputs.SEND_GOAWAY)
 
         # Additional_data must be bytes
@@ -2156,6 +2167,17 @@ def _add_frame_priority(frame, weight=None, depends_on=None, exclusive=None):
     frame.exclusive = exclusive
 
     return frame
+
+
+def _validate_error_code(error_code):
+    """
+    Checks that an error code a user wants to send fits the 32-bit field that
+    carries it, raising ValueError before anything has changed if it does not.
+    """
+    if not 0 <= int(error_code) <= 2**32 - 1:
+        raise ValueError(
+            "Error code must be between 0 and 2**32-1, not %d" % error_code
+        )
 
 
 def _validate_priority(stream_id, weight, depends_on):
